@@ -40,13 +40,14 @@ def run(ctx):
     trys = [n for n in walk_no_nested(sm.node) if isinstance(n, ast.Try)]
     if ok and len(trys) == 1:
         t = trys[0]
-        body = [norm_text(b) for b in t.body]
-        ok = body == ['yield session', 'session.commit()']
+        bnd = {}
+        ok = len(t.body) == 2 and U.like(t.body[0], 'yield L_s', bnd) and U.like(t.body[1], 'L_s.commit()', bnd)
         hs = t.handlers
         ok = ok and len(hs) == 1 and (hs[0].type is None or norm_text(hs[0].type) in ('BaseException', 'Exception')) \
-            and [norm_text(b) for b in hs[0].body] == ['session.rollback()', 'raise']
-        ok = ok and [norm_text(b) for b in t.finalbody] == ['session.close()']
-        sdef = U.local_defs(sm.node).get('session', [])
+            and len(hs[0].body) == 2 and U.like(hs[0].body[0], 'L_s.rollback()', bnd) and isinstance(hs[0].body[1], ast.Raise) \
+            and hs[0].body[1].exc is None
+        ok = ok and len(t.finalbody) == 1 and U.like(t.finalbody[0], 'L_s.close()', bnd)
+        sdef = U.local_defs(sm.node).get(bnd.get('L_s', ''), [])
         ok = ok and len(sdef) == 1 and norm_text(sdef[0][0]) == 'self._session_maker()'
     else:
         ok = False
@@ -58,7 +59,8 @@ def run(ctx):
             continue
         withs = [w for w in walk_no_nested(m.node) if isinstance(w, ast.With)
                  and any(norm_text(i.context_expr) == 'self._session()' for i in w.items)]
-        uses = [n for n in walk_no_nested(m.node) if isinstance(n, ast.Name) and n.id == 'session' and isinstance(n.ctx, ast.Load)]
+        snames = {it.optional_vars.id for w in withs for it in w.items if isinstance(it.optional_vars, ast.Name)} | {'session'}
+        uses = [n for n in walk_no_nested(m.node) if isinstance(n, ast.Name) and n.id in snames and isinstance(n.ctx, ast.Load)]
         if not withs and not uses:
             continue
         n_ops += 1
@@ -178,8 +180,8 @@ def run(ctx):
         child = c
         for a in U.ancestors(c, pm):
             if isinstance(a, ast.If) and any(child is b or any(child is x for x in ast.walk(b)) for b in a.body):
-                t = norm_text(a.test)
-                if t in ('action == Actions.RETRY', 'action == Actions.FINISH', 'action == Actions.STOP'):
+                if any(U.like(a.test, pat) for pat in ('L_a == Actions.RETRY', 'L_a == Actions.FINISH', 'L_a == Actions.STOP',
+                                                       'Actions.RETRY == L_a', 'Actions.FINISH == L_a', 'Actions.STOP == L_a')):
                     return True
         return False
     eff, callmap = effect_closure(repo, res, seeds, ignore_call=hook_conditional)
@@ -280,7 +282,7 @@ def run(ctx):
         if oks:
             pm = U.parents(f.node)
             guards = [a for a in U.ancestors(sets[0], pm) if isinstance(a, ast.If)]
-            oks = len(guards) == 1 and norm_text(guards[0].test) in ('action == Actions.NORMAL', 'Actions.NORMAL == action')
+            oks = len(guards) == 1 and (U.like(guards[0].test, 'L_a == Actions.NORMAL') or U.like(guards[0].test, 'Actions.NORMAL == L_a'))
         ck.expect(oks, 'C03-D6', f.qual, '%s stored only for Actions.NORMAL' % status, '%s: status handling changed' % name, f.loc())
 
 
